@@ -66,9 +66,20 @@ func (m c09) buildCollection(s *c09scn, order []int) (jsonapi.Collection, *Panic
 			st.Wrapped = false
 			typ := buildType(&st)
 			sc.SetType(&typ)
-			for _, i := range order {
+			// built through a history that includes removals (a decoy added first and one in the middle, both
+			// removed again): positions shift
+			sc.Add(buildResource(&t, &ResSpec{Type: t.Name, ID: "zz-decoy-first"}))
+			for n, i := range order {
+				if n == len(order)/2 {
+					sc.Add(buildResource(&t, &ResSpec{Type: t.Name, ID: "zz-decoy-mid"}))
+				}
 				sc.Add(buildResource(&t, s.Res[i]))
 			}
+			if len(order)%2 == 0 {
+				_ = sc.Resource("zz-decoy-first", nil) // a lookup before the removals
+			}
+			sc.Remove("zz-decoy-first")
+			sc.Remove("zz-decoy-mid")
 			other := &jsonapi.SoftCollection{}
 			typ2 := buildType(&st)
 			other.SetType(&typ2)
